@@ -555,11 +555,15 @@ def fit_uses_the_gradient_of_every_owned_parameter(ctx: Ctx) -> None:
             p.grad = None
         hedger.train()
         torch.manual_seed(78)
-        true = torch.autograd.grad(hedger.compute_loss(d, n_paths=16), owned)
+        true = torch.autograd.grad(hedger.compute_loss(d, n_paths=16), owned, allow_unused=True)
+        true = [torch.zeros_like(p) if t is None else t for p, t in zip(owned, true)]
         ctx.count(("fit-gradient-owned", kind), n=1)
         outside = slice(len(list(model.parameters())), None)
         if not any(float(t.abs().max()) > 1e-6 for t in true[outside]):
-            raise MachineryError(f"fit_uses_the_gradient_of_every_owned_parameter: the loss does not depend on the outside parameters ({kind})")
+            # (by construction the loss depends on these parameters: the utility's w enters the criterion, the extractor feeds the model)
+            ctx.violation("fit:gradient-used:outside-the-model:no-gradient", "the loss computed by the hedger carries no gradient for a trainable parameter outside the model that it depends on",
+                          {"kind": kind})
+            continue
         worst = max(float((u - t).abs().max() / (1e-6 + t.abs().max())) for u, t in zip(used, true))
         if not worst <= 1e-8:
             ctx.violation("fit:gradient-used:outside-the-model", "a parameter the supplied optimiser owns outside the model was not updated by -lr times the gradient of the loss "
